@@ -10,13 +10,20 @@ import (
 	sv "github.com/Oneledger/protocol/zz_sv"
 )
 
-var svCurrencyNames = []string{"OLT", "ETH", "XXX", ""}
+var svCurrencyNames = []string{"OLT", "XXX", "ETH", ""}
 
 var svPoolNames = []string{"DelegationPool", "RewardsPool", "BountyPool", "FeePool", "NoSuchPool"}
 
+// svCurrencyLimit restricts svAnyAmount to the first k currency names (0 = all).
+var svCurrencyLimit = 0
+
 // svAnyAmount: any integer value in any of the currency names.
 func svAnyAmount(name string) action.Amount {
-	cur := svCurrencyNames[sv.Choice(name+".currency", len(svCurrencyNames))]
+	k := len(svCurrencyNames)
+	if svCurrencyLimit > 0 && svCurrencyLimit < k {
+		k = svCurrencyLimit
+	}
+	cur := svCurrencyNames[sv.Choice(name+".currency", k)]
 	return action.Amount{Currency: cur, Value: *balance.NewAmountFromBigInt(sv.BigInt(name + ".value"))}
 }
 
